@@ -220,6 +220,9 @@ class AliasAnalysis:
                                     out.add(('CV', t[1], ATTRS[k]))
                     return out
             if isinstance(fn, ast.Attribute) and fn.attr in ('copy', 'deepcopy'):
+                if any(k.arg == 'as_view' and not (isinstance(k.value, ast.Constant) and k.value.value is False)
+                       for k in call.keywords):
+                    return tags(fn.value, env)          # networkx g.copy(as_view=True) is a live view of g, not a copy
                 return set()
             callee, recv = resolve(call)
             if callee is None:
